@@ -173,7 +173,8 @@ Section Adopt.
       destruct (ad_fields (home r')) as (_ & _ & _ & _ & _ & ->).
       destruct (Nat.eqb_spec (home r') t) as [E|]; [|exact H2]. rewrite E in H2. apply in_remove_at; [|exact H2].
       unfold sc. rewrite Hk. congruence.
-    - intros q Hq. destruct (ad_fields q) as (_ & _ & -> & -> & _ & ->). destruct (Imarks q Hq) as [H1 H2]. split; [exact H1|].
+    - intros q Hq. destruct (ad_fields q) as (_ & _ & -> & -> & -> & ->). destruct (Imarks q Hq) as [H1 H2]. split.
+      { destruct (Nat.eqb_spec q t) as [->|]; [|exact H1]. rewrite len_app_last. unfold sc. lia. }
       destruct (Nat.eqb_spec q t) as [->|]; [|exact H2].
       pose proof ad_k_lt as Hlt. pose proof (length_remove_at (sundeclared sc) k Hlt) as Hlen.
       unfold len in *. unfold sc in *. lia.
